@@ -38,6 +38,22 @@ pub enum OStep {
     Age { at: u32 },
     /// C13: ask `has_news_for_us` about this head report (author index, timestamp)
     News { heads: Vec<(u8, u64)> },
+    /// an operation that has nothing to do with the entries of the document under test
+    Side(SideOp),
+}
+
+#[derive(Serialize, Deserialize, Clone, Debug)]
+pub enum SideOp {
+    /// write to another document of the same store
+    NeighbourWrite { e: Ent },
+    /// remove another document of the same store
+    NeighbourRemove { d: u8 },
+    /// set a download policy / register a peer / read everything / import a read-only capability
+    /// for the document under test
+    Policy,
+    Peer { p: u8 },
+    Read,
+    ImportRead,
 }
 
 #[derive(Serialize, Deserialize, Clone, Debug)]
@@ -91,6 +107,17 @@ impl Scenario for Offer {
                     2 => steps.push(OStep::Flush),
                     3 | 4 => steps.push(OStep::Age { at: rng.below(6) as u32 }),
                     5 if self.mode == Mode::Heads => steps.push(OStep::News { heads: gen_heads(rng, &g) }),
+                    6 | 7 => {
+                        let gn = GenCfg { docs: 4, authors: 4, max_key_len: 2, ts_values: 4, marker_pct: 20, contents: 3 };
+                        steps.push(OStep::Side(match rng.below(8) {
+                            0..=2 => SideOp::NeighbourWrite { e: gen_ent(rng, &gn) },
+                            3 => SideOp::NeighbourRemove { d: rng.below(4) as u8 },
+                            4 => SideOp::Policy,
+                            5 => SideOp::Peer { p: rng.below(6) as u8 },
+                            6 => SideOp::Read,
+                            _ => SideOp::ImportRead,
+                        }));
+                    }
                     _ => {}
                 }
                 let path = match rng.below(10) {
@@ -199,7 +226,7 @@ impl Scenario for Offer {
     }
 
     fn rule(&self) -> String {
-        "A run draws 1-16 entries from the biased alphabet (keys over {00,01,'a','b',FE,FF} up to length 4, 1-3 authors, few timestamps, ~25% deletion markers) and offers each of 2-3 replicas its own permutation with duplicates through local / remote / in-message paths, with clean restarts, flushes and transaction ageing (reorder, duplicate, restart, age-commit faults).".into()
+        "A run draws 1-16 entries from the biased alphabet (keys over {00,01,'a','b',FE,FF} up to length 4, 1-3 authors, few timestamps, ~25% deletion markers) and offers each of 2-3 replicas its own permutation with duplicates through local / remote / in-message paths, with clean restarts, flushes and transaction ageing (reorder, duplicate, restart, age-commit faults); in between, operations that have nothing to do with these entries (writes to and removal of other documents of the store, a download policy, a peer registration, a read, a read-only capability import for the same document) must change nothing.".into()
     }
 }
 
@@ -286,6 +313,46 @@ impl Offer {
                         if self.mode == Mode::Heads {
                             self.check_news(sut.store(), h, ri, cx)?;
                         }
+                    }
+                    OStep::Side(op) => {
+                        let w = crate::world::world();
+                        let ns = w.doc_id(pd);
+                        cx.probe("unrelated_operation_in_between");
+                        match op {
+                            SideOp::NeighbourWrite { e } => {
+                                if e.d % 4 != pd {
+                                    let mut e = e.clone();
+                                    e.d %= 4;
+                                    ensure_doc(sut.store(), e.d)?;
+                                    offer(sut.store(), &e, Path::Remote).await?;
+                                    disarm_age();
+                                    neighbour_models.entry(e.d).or_default().offer(&e);
+                                }
+                            }
+                            SideOp::NeighbourRemove { d } => {
+                                let d = *d % 4;
+                                if d != pd && neighbour_models.contains_key(&d) {
+                                    sut.store().remove_replica(&w.doc_id(d)).map_err(|e| harness(format!("remove neighbour: {e:#}")))?;
+                                    neighbour_models.insert(d, RefDoc::default());
+                                    cx.probe("neighbour_document_removed");
+                                }
+                            }
+                            SideOp::Policy => {
+                                let p = iroh_docs::store::DownloadPolicy::NothingExcept(vec![iroh_docs::store::FilterKind::Prefix(bytes::Bytes::from_static(b"a"))]);
+                                sut.store().set_download_policy(&ns, p).map_err(|e| harness(format!("set policy: {e:#}")))?;
+                            }
+                            SideOp::Peer { p } => {
+                                sut.store().register_useful_peer(ns, w.peers[*p as usize]).map_err(|e| harness(format!("register peer: {e:#}")))?;
+                            }
+                            SideOp::Read => {
+                                let n = sut.store().get_many(ns, iroh_docs::store::Query::all()).map_err(|e| harness(format!("{e:#}")))?.count();
+                                let _ = n;
+                            }
+                            SideOp::ImportRead => {
+                                sut.store().import_namespace(iroh_docs::Capability::Read(ns)).map_err(|e| harness(format!("import: {e:#}")))?;
+                            }
+                        }
+                        disarm_age();
                     }
                 }
                 AGE_FIRED.with(|c| {
